@@ -474,6 +474,9 @@ func (e *esdtNFTMultiTransfer) addNFTToDestination(
 	}
 
 	if currentESDTData.TokenMetaData != nil {
+		if esdtDataToTransfer.TokenMetaData == nil {
+			return ErrWrongNFTOnDestination
+		}
 		if !bytes.Equal(currentESDTData.TokenMetaData.Hash, esdtDataToTransfer.TokenMetaData.Hash) {
 			return ErrWrongNFTOnDestination
 		}
